@@ -205,6 +205,8 @@ pub struct TreeOut {
     pub obs: Vec<Vec<u64>>,
     pub runs: Vec<u32>,
     pub setups: Vec<u32>,
+    /// after a second setup, on a fresh world
+    pub setups2: Vec<u32>,
     pub result: Option<String>,
     pub root_reads: Vec<ResourceId>,
     pub root_writes: Vec<ResourceId>,
@@ -233,6 +235,14 @@ pub fn run_tree(t: &Tree, site: u8, dispatches: u8) -> TreeOut {
     let mut world = new_world();
     ps.setup(&mut world);
     out.setups = ctx.setups.lock().unwrap().clone();
+    // a fresh world in the same variable needs setting up again: every leaf is reached a second time
+    world = new_world();
+    if site == 1 {
+        shred::RunNow::setup(&mut ps, &mut world);
+    } else {
+        ps.setup(&mut world);
+    }
+    out.setups2 = ctx.setups.lock().unwrap().clone();
     for i in 1..=dispatches {
         ctx.dispatch_no.store(i as u32, Ordering::Relaxed);
         let r = catch_unwind(AssertUnwindSafe(|| {
@@ -275,6 +285,9 @@ pub fn analyze_tree(t: &Tree, dispatches: u8, o: &TreeOut, twin: Option<&TreeOut
         }
         if o.setups[id] != 1 {
             vs.push(("setup-missed-leaf".into(), format!("leaf {} was set up {} times", id, o.setups[id])));
+        }
+        if o.setups2.get(id).copied().unwrap_or(2) != 2 {
+            vs.push(("second-setup-missed-leaf".into(), format!("leaf {} has been set up {} times after two setup calls (the second on a fresh world)", id, o.setups2[id])));
         }
     }
     // seq ordering, per dispatch
@@ -732,6 +745,66 @@ pub fn check_par_with(alpha: &[(Vec<u8>, Vec<u8>)], col: &mut Collector) -> (u64
                         replay: json!({"kind":"par-with","a":a.to_json(),"b":b.to_json(),"c":c.to_json()}),
                         size: 3,
                     });
+                }
+            }
+        }
+    }
+    // long access lists: the contested resource sits behind n entries naming an unrelated resource, either in
+    // one leaf's declared list (duplicates are legal) or spread over the leaves of a seq child
+    for n in 0..=40usize {
+        for spread in [false, true] {
+            // (the short child's access, the long child's access to the contested resource 0: (reads it, writes it))
+            for (short, long_r, long_w) in [((vec![], vec![0u8]), true, false), ((vec![0u8], vec![]), false, true), ((vec![], vec![0u8]), false, true), ((vec![0u8], vec![]), true, false)] {
+                let a = Tree::Leaf(short.0.clone(), short.1.clone());
+                let last = Tree::Leaf(if long_r { vec![0] } else { vec![] }, if long_w { vec![0] } else { vec![] });
+                let b = if spread {
+                    let mut v: Vec<Tree> = (0..n).map(|i| if i % 2 == 0 { Tree::Leaf(vec![1], vec![]) } else { Tree::Leaf(vec![], vec![1]) }).collect();
+                    v.push(last);
+                    // the harness builds seq nodes of up to 6 children: nest to the right
+                    fn nest(mut v: Vec<Tree>) -> Tree {
+                        if v.len() <= 6 {
+                            return Tree::Seq(v);
+                        }
+                        let rest = v.split_off(5);
+                        v.push(nest(rest));
+                        Tree::Seq(v)
+                    }
+                    nest(v)
+                } else {
+                    let mut r = vec![1u8; if long_w { 0 } else { n }];
+                    let mut w = vec![1u8; if long_w { n } else { 0 }];
+                    if long_r {
+                        r.push(0);
+                    }
+                    if long_w {
+                        w.push(0);
+                    }
+                    Tree::Leaf(r, w)
+                };
+                let expect = conflict(a.access(), b.access());
+                for long_first in [false, true] {
+                    cases += 1;
+                    let mut nx = 0;
+                    let (na, nb) = (build_tree(&a, &mut nx, &ctx), build_tree(&b, &mut nx, &ctx));
+                    let r = catch_unwind(AssertUnwindSafe(|| {
+                        if long_first {
+                            let _ = Par::new(nb).with(na);
+                        } else {
+                            let _ = Par::new(na).with(nb);
+                        }
+                    }));
+                    if r.is_err() {
+                        panics += 1;
+                    }
+                    if r.is_err() != expect {
+                        col.add(Finding {
+                            prop: "C16".into(),
+                            sig: if expect { "par-with-accepted-conflict".into() } else { "par-with-rejected-compatible-children".into() },
+                            msg: format!("Par::with of {} and a child whose access to the same resource sits behind {} other entries ({}; long child {}) {} but the access sets {}", a.short(), n, if spread { "a seq of leaves" } else { "one leaf's list" }, if long_first { "first" } else { "added" }, if r.is_err() { "panicked" } else { "did not panic" }, if expect { "conflict" } else { "are compatible" }),
+                            replay: json!({"kind":"par-with","a":a.to_json(),"b":b.to_json(),"long_first":long_first}),
+                            size: n + 2,
+                        });
+                    }
                 }
             }
         }
